@@ -53,6 +53,31 @@ CHECKS = {
         text="Frames up to 2x2 (4096 subsets) and 1x3/3x1, single_cycle on/off, both encodings, both returned arrays compared with the definition in every satisfying assignment.",
         note="as C04",
         ref="DESIGN.md 5 C10"),
+    "C03": dict(
+        technique="TLA+ wire specification (SugarWire: S-expression denotation, reply formats); TLC trace validation of captured requests; TLC-rendered replies replayed into the real parsers",
+        text="Requests: Solver states from the C01 drivers and from every graph helper (native operators included) are solved through all five backend names with substituted solver modules / executable; the captured text is tokenised (lexical only) and TLC checks declarations (ids, kinds, bounds, each once), the answer-key line (exactly the keys, right prefix, only in deduction mode), and that every constraint line denotes the posted constraint (structurally, or semantically over all assignments). Replies: TLC enumerates every well-formed reply over <=3 variables in both formats of CspuzSugarInterface.java (values incl. negative/multi-digit, every key/decided subset, two printing orders) and renders the text; the real parsers must leave exactly the specified values and Python types in sol and return sat.",
+        note="decided up to the wire: real Sugar/csugar/cspuz_core are not installed; trusted: the lexical tokenizer, the substituted entry points (fake modules in sys.modules, stand-in executable), SugarWire.tla's operator table",
+        ref="DESIGN.md 5 C03"),
+    "C12": dict(
+        technique="TLC enumerates operator forms (ArrayOps/MC_Array); real array layer executed; results judged by TLC (Trace_Array: shape, typing, value equivalence under all assignments)",
+        text="Every binary operator x every pair of operand kinds (1-D/2-D arrays incl. empty and 1xN, variables, literals) x both operand orders, unary forms, then/cond as methods and module functions, helpers over nested lists/tuples/generators/arrays/literals, conv2d windows, four_neighbors: rejection exactly where specified, otherwise same shape and every element equal in value to its pointwise meaning under every assignment of the variables it mentions.",
+        note="trusted: ArrayOps.tla meanings, CspSem!Eval, exporter; equality between a boolean and an integer operand is left unspecified as in the property",
+        ref="DESIGN.md 5 C12"),
+    "C13": dict(
+        technique="TLC enumerates keys with CPython slice semantics (Indexing.tla); three-way comparison spec = Python nested lists = cspuz arrays",
+        text="1-D lengths 0..5 and 2-D shapes x {13 integers, 1372 slices (bounds None or -6..6, steps None or +-1..3)} in each position, single keys, coordinate lists, flatten/reshape: selected elements, order, result shape and IndexError must coincide; the specification's arithmetic is itself validated against real list indexing in the same run.",
+        note="trusted: TLC; bounded axis lengths; a[s, j] with empty row selection and out-of-range j accepted either way",
+        ref="DESIGN.md 5 C13"),
+    "C14": dict(
+        technique="TLC checks lattice-geometry consistency (GridFrame.tla) and exports every accessor's expected result; replay into BoolGridFrame",
+        text="All frame sizes 0..3 (thorough 0..5): doubled coordinates inside/outside/wrong parity, cell and point neighbourhoods (as sets) incl. out-of-range, all_edges/iteration order, dual and dual-of-dual, and the (edges, graph) pair inferred by the loop constraints; design-level invariants: every segment joins the points / separates the cells its name says.",
+        note="projection: frame.horizontal[y,x] IS H(y,x), frame.vertical[y,x] IS V(y,x)",
+        ref="DESIGN.md 5 C14"),
+    "C20": dict(
+        technique="TLA+ configuration state machine (Config.tla) explored exhaustively by TLC; every transition replayed on the real code",
+        text="Environment x importable-module sets x infer_from_env -> Config(); attribute assignments; per-call backend argument (none, six names, unknown, class) observed through substituted solver modules / executable; every graph helper x explicit argument x flags x acyclic observed through the emitted program. Invariants: DefaultsSound, AcyclicNeverNative, ExplicitWins, ArgWins.",
+        note="module availability simulated via sys.modules; sugar vs sugar_extended distinguished by the answer-key line",
+        ref="DESIGN.md 5 C20"),
 }
 
 NOT_APPLICABLE = {}
